@@ -138,6 +138,12 @@ MINI = {
                       "TYPE tt = STRING;\n WHERE\n  wt : SELF <> 'type %d rule %x';\nEND_TYPE;\n"
                       "ENTITY tank; label : STRING; level : INTEGER;\n DERIVE\n  shown : STRING := 'level %d/%d/%d/%d';\n WHERE\n  wr1 : label <> 'value in %x %x %p';\n  wr2 : label <> '%d %%';\nEND_ENTITY;\n"
                       "FUNCTION ff (s : STRING) : STRING;\n  IF s = 'in %d function %p' THEN RETURN ('%x%x%x'); END_IF;\n  RETURN ('%d%d%d%d%d%d%d%d');\nEND_FUNCTION;\nEND_SCHEMA;\n"),
+    'm_alias2': ("SCHEMA m_alias2;\nFUNCTION f (l : LIST OF REAL; m : LIST OF REAL) : REAL;\n  LOCAL\n    r : REAL := 0.0;\n  END_LOCAL;\n"
+                 "  ALIAS a FOR l;\n    r := r + SIZEOF (a);\n  END_ALIAS;\n  ALIAS b FOR m;\n    r := r + SIZEOF (b);\n  END_ALIAS;\n"
+                 "  ALIAS c FOR l;\n    ALIAS d FOR m;\n      r := r + SIZEOF (c) + SIZEOF (d);\n    END_ALIAS;\n  END_ALIAS;\n  RETURN (r);\nEND_FUNCTION;\nEND_SCHEMA;\n"),
+    'm_widths': ('SCHEMA m_widths;\nTYPE coarse = REAL (4); END_TYPE;\nTYPE code = STRING (10) FIXED; END_TYPE;\nTYPE nm = STRING (30); END_TYPE;\nTYPE bits = BINARY (8); END_TYPE;\n'
+                 'TYPE lr = LIST [1:?] OF REAL (6); END_TYPE;\nENTITY e; a : REAL (3); b : OPTIONAL STRING (5) FIXED; c : ARRAY [1:3] OF REAL (2); d : SET OF STRING (7); k : coarse;\n'
+                 ' DERIVE\n  h : REAL (2) := a / 2.0;\nEND_ENTITY;\nFUNCTION f (p : REAL (5); q : STRING (2)) : REAL (8);\n  LOCAL\n    t : REAL (9) := 0.5;\n  END_LOCAL;\n  RETURN (t + p);\nEND_FUNCTION;\nEND_SCHEMA;\n'),
     'm_strlit': "SCHEMA m_strlit;\nCONSTANT\n  s1 : STRING := 'plain';\n  s2 : STRING := 'it''s';\n  s3 : STRING := \"00000041\";\n  s4 : STRING := '';\n  b1 : BINARY := %0101;\nEND_CONSTANT;\nEND_SCHEMA;\n",
 }
 
@@ -147,15 +153,18 @@ MULTI_ITEMS = """SCHEMA mi_a;
 CONSTANT c1 : REAL := 1.5; END_CONSTANT;
 TYPE ta = REAL; END_TYPE;
 TYPE sa = ENUMERATION OF (on_, off_); END_TYPE;
+TYPE hue = sa; END_TYPE;
+TYPE pick = SELECT (ea, ea2); END_TYPE;
+TYPE pick2 = pick; END_TYPE;
 FUNCTION f1 (x : REAL) : REAL; RETURN (x); END_FUNCTION;
 PROCEDURE p1 (VAR x : REAL); x := x + 1.0; END_PROCEDURE;
 ENTITY ea; v : REAL; END_ENTITY;
 ENTITY ea2; v2 : ta; END_ENTITY;
 END_SCHEMA;
 SCHEMA mi_b;
-USE FROM mi_a (ea2 AS eb2, sa AS sb);
+USE FROM mi_a (ea2 AS eb2, sa AS sb, hue, pick2);
 REFERENCE FROM mi_a (c1 AS k1, f1 AS g1, p1, ea AS eb, ta);
-ENTITY e; w : REAL; r : eb; r2 : OPTIONAL eb2; s : sb; t : ta;
+ENTITY e; w : REAL; r : eb; r2 : OPTIONAL eb2; s : sb; t : ta; h : hue; hs : LIST OF hue; p2 : OPTIONAL pick2;
  WHERE w1 : g1 (w) > k1;
 END_ENTITY;
 END_SCHEMA;
@@ -584,7 +593,35 @@ def interface_paths():
         out.append(('paths_%s_diamond_reversed' % kw.lower(), base + mid + 'SCHEMA top_s;\n%s FROM mid_s (point, segment);\n%s FROM base_s (point);\nENTITY poly; first : point; parts : LIST [1:?] OF segment; END_ENTITY;\nEND_SCHEMA;\n' % (kw, kw), True))
         out.append(('paths_%s_twice_same' % kw.lower(), base + 'SCHEMA top_s;\n%s FROM base_s (point);\n%s FROM base_s (point);\nENTITY holder; it : point; END_ENTITY;\nEND_SCHEMA;\n' % (kw, kw), True))
         out.append(('paths_%s_same_alias_twice' % kw.lower(), base + 'SCHEMA top_s;\n%s FROM base_s (point AS p);\n%s FROM base_s (point AS p);\nENTITY holder; it : p; END_ENTITY;\nEND_SCHEMA;\n' % (kw, kw), True))
+        # every item of another schema interfaced at once (no item list): what the schema then mentions resolves through that clause alone
+        sup = 'SCHEMA support;\nCONSTANT unit_len : REAL := 1.0; END_CONSTANT;\nTYPE len = REAL; END_TYPE;\nFUNCTION twice (x : REAL) : REAL; RETURN (2.0 * x); END_FUNCTION;\nENTITY anchor; at : len; END_ENTITY;\nEND_SCHEMA;\n'
+        body = 'ENTITY beam; l : len; a : anchor;\n WHERE w1 : twice (l) > unit_len;\nEND_ENTITY;\nEND_SCHEMA;\n'
+        out.append(('paths_%s_whole_schema_only' % kw.lower(), sup + 'SCHEMA top_s;\n%s FROM support;\n' % kw + body, True))
+        out.append(('paths_%s_whole_schema_and_item' % kw.lower(), base + sup + 'SCHEMA top_s;\n%s FROM support;\n%s FROM base_s (point);\n' % (kw, kw) + body.replace('a : anchor;', 'a : anchor; p : point;'), True))
         out.append(('paths_%s_alias_clash' % kw.lower(), base + 'SCHEMA top_s;\n%s FROM base_s (point AS p, pixel AS p);\nENTITY holder; it : p; END_ENTITY;\nEND_SCHEMA;\n' % kw, False))
         out.append(('paths_%s_alias_clash_two_clauses' % kw.lower(), base + 'SCHEMA top_s;\n%s FROM base_s (point AS p);\n%s FROM base_s (pixel AS p);\nENTITY holder; it : p; END_ENTITY;\nEND_SCHEMA;\n' % (kw, kw), False))
         out.append(('paths_%s_alias_clash_with_plain' % kw.lower(), base + 'SCHEMA top_s;\n%s FROM base_s (pixel AS point, point);\nENTITY holder; it : point; END_ENTITY;\nEND_SCHEMA;\n' % kw, False))
+    return out
+
+
+def duplicate_kinds():
+    """(name, text, planted) - one name declared twice in one schema by declarations of DIFFERENT kinds (entity, type, function, procedure, constant, rule),
+    in both orders: a duplicate declaration whatever the kinds are"""
+    D = {'entity': 'ENTITY %s; q : INTEGER; END_ENTITY;', 'type': 'TYPE %s = INTEGER; END_TYPE;', 'function': 'FUNCTION %s (x : INTEGER) : INTEGER; RETURN (x); END_FUNCTION;',
+         'procedure': 'PROCEDURE %s (VAR x : INTEGER); x := 1; END_PROCEDURE;', 'constant': 'CONSTANT %s : INTEGER := 1; END_CONSTANT;',
+         'rule': 'RULE %s FOR (other); WHERE w1 : SIZEOF (other) >= 0; END_RULE;'}
+    out = []
+    for a in D:
+        for b in D:
+            if a == b:
+                continue
+            first, second = D[a] % 'zq_twice', D[b] % 'zq_twice'
+            if 'constant' in (a, b):
+                # the grammar wants the constant block in front of the other declarations: what differs between the two orders is only which kind
+                # the name had first, so one text per unordered pair with a constant
+                if a != 'constant':
+                    continue
+                out.append(('dup_constant_and_%s' % b, 'SCHEMA dk;\n%s\nENTITY other; k : INTEGER; END_ENTITY;\n%s\nEND_SCHEMA;\n' % (first, second), 'zq_twice'))
+                continue
+            out.append(('dup_%s_then_%s' % (a, b), 'SCHEMA dk;\nENTITY other; k : INTEGER; END_ENTITY;\n%s\n%s\nEND_SCHEMA;\n' % (first, second), 'zq_twice'))
     return out
